@@ -311,7 +311,7 @@ def build_harness(pkg, timeout=3000):
     logs = ""
     write_main(os.path.join(HARNESS, "cmd", "h_" + pkg, "main.go"), [pkg])
     out = os.path.join(BIN, "h_" + pkg)
-    rc, o, e = sh(["go", "build", "-tags", "verif", "-o", out, "./cmd/h_" + pkg], cwd=HARNESS, env=goenv(), timeout=timeout)
+    rc, o, e = sh(["go", "build", "-trimpath", "-tags", "verif", "-o", out, "./cmd/h_" + pkg], cwd=HARNESS, env=goenv(), timeout=timeout)
     if rc == 0:
         return out, logs + o + e
     return None, logs + o + e
